@@ -9,6 +9,7 @@ import (
 
 	ws "github.com/gorilla/websocket"
 	"github.com/zishang520/engine.io-go-parser/packet"
+	"github.com/zishang520/engine.io/v2/events"
 	"github.com/zishang520/engine.io/v2/log"
 	"github.com/zishang520/engine.io/v2/types"
 )
@@ -20,6 +21,10 @@ type websocket struct {
 
 	socket *types.WebSocketConn
 	mu     sync.Mutex
+
+	// the reader starts with the first "packet" listener: what it reads before anybody
+	// listens (the probe of an upgrade candidate, typically) would be emitted to nobody
+	reading sync.Once
 }
 
 // WebSocket transport
@@ -51,10 +56,17 @@ func (w *websocket) Construct(ctx *types.HttpContext) {
 		w.OnClose()
 	})
 
-	go w.message()
-
 	w.SetWritable(true)
 	w.SetPerMessageDeflate(nil)
+}
+
+// On registers listeners; the first "packet" listener starts the reader.
+func (w *websocket) On(evt events.EventName, listeners ...events.Listener) error {
+	err := w.Transport.On(evt, listeners...)
+	if evt == "packet" {
+		w.reading.Do(func() { go w.message() })
+	}
+	return err
 }
 
 // Transport name
